@@ -264,12 +264,20 @@ def ac4_none_conversion(fc: FnCls, R: RuleResult, recursive_callees: Optional[Se
             continue
         n += 1
         conv = False
-        for s in own_nodes(f.node):
-            if isinstance(s, ast.Assign) and isinstance(s.value, ast.Call) and \
-                    ast.unparse(s.value.func).split(".")[-1] == "convert_none_grads_to_zeros" and s.value.args \
-                    and isinstance(s.value.args[0], ast.Name) and s.value.args[0].id == name \
-                    and isinstance(s.targets[0], ast.Name) and s.targets[0].id == name:
-                conv = True
+        for c2 in own_nodes(f.node):
+            if isinstance(c2, ast.Call) and ast.unparse(c2.func).split(".")[-1] == "convert_none_grads_to_zeros" and c2.args \
+                    and isinstance(c2.args[0], ast.Name) and c2.args[0].id == name:
+                st2 = enclosing_stmt(c2)
+                # `name = convert(name, ..)` (later uses see the converted list) or `return convert(name, ..)`
+                if (isinstance(st2, ast.Assign) and st2.value is c2 and isinstance(st2.targets[0], ast.Name) and st2.targets[0].id == name) \
+                        or (isinstance(st2, ast.Return) and st2.value is c2):
+                    conv = True
+        # no exit hands out the unconverted list
+        if conv and any(isinstance(r, ast.Return) and isinstance(r.value, ast.Name) and r.value.id == name
+                        and not any(isinstance(s2, ast.Assign) and isinstance(s2.targets[0], ast.Name) and s2.targets[0].id == name and isinstance(s2.value, ast.Call)
+                                    and ast.unparse(s2.value.func).split(".")[-1] == "convert_none_grads_to_zeros" for s2 in own_nodes(f.node))
+                        for r in own_nodes(f.node)):
+            conv = False
         what = "gradients `%s` in %s are flattened by the caller; None entries converted to zeros" % (name, f.qualname)
         if conv:
             R.ok(f.fq, what)
@@ -908,21 +916,10 @@ def _grad_enabled_names(fn: ast.AST) -> Set[str]:
 
 def _under_not_grad_enabled(node: ast.AST, fn: ast.AST, flags: Set[str]) -> bool:
     """node lies in the branch taken when the graph is NOT being recorded"""
-    from ..model import ancestors
-    child = node
-    for a in ancestors(node):
-        if isinstance(a, ast.If):
-            t = a.test
-            neg = isinstance(t, ast.UnaryOp) and isinstance(t.op, ast.Not)
-            core = t.operand if neg else t
-            is_flag = (isinstance(core, ast.Name) and core.id in flags) or (isinstance(core, ast.Call) and ast.unparse(core.func) == "torch.is_grad_enabled")
-            if is_flag:
-                in_body = any(child is s or any(child is d for d in ast.walk(s)) for s in a.body)
-                if (neg and in_body) or (not neg and not in_body):
-                    return True
-        if a is fn:
-            break
-        child = a
+    from ..model import effective_conditions
+    for text, truth in effective_conditions(node):
+        if truth is False and (text in flags or text == "torch.is_grad_enabled()"):
+            return True
     return False
 
 
